@@ -805,7 +805,8 @@ func confirm(c *candidate) map[string]interface{} {
 
 // ---- single input, verbose (debug flag and --replay) ----
 
-func showOne(in []byte, mask uint16, force bool) {
+func showOne(in []byte, mask uint16, force bool) (keys map[string]bool) {
+	keys = map[string]bool{}
 	fmt.Printf("input (%d bytes): %s\n", len(in), vk.Q(string(in[:min(len(in), 400)])))
 	for v := 0; v < numVariants; v++ {
 		if mask&(1<<uint(v)) == 0 {
@@ -823,6 +824,7 @@ func showOne(in []byte, mask uint16, force bool) {
 			}
 			for _, f := range r.Findings {
 				fmt.Printf("  => finding key=%s: %s\n", f.Key, f.What)
+				keys[f.Key] = true
 			}
 			if r.PredictedFatal {
 				fmt.Println("  (bare variant skipped: the handler variant predicts a fatal panic)")
@@ -831,12 +833,14 @@ func showOne(in []byte, mask uint16, force bool) {
 		if out.done == nil {
 			kind, fn, msg := classifyDeath(out.stderr, out.timedOut)
 			fmt.Printf("  => WORKER DIED: %s: %s (first go-imap frame: %s) key=%s\n", kind, msg, fn, deathKey(kind, fn, msg, out.stderr))
+			keys[deathKey(kind, fn, msg, out.stderr)] = true
 			lines := strings.Split(out.stderr, "\n")
 			for i := 0; i < len(lines) && i < 24; i++ {
 				fmt.Println("     | " + lines[i])
 			}
 		}
 	}
+	return keys
 }
 
 func replay() {
@@ -860,7 +864,11 @@ func replay() {
 	}
 	fmt.Printf("replaying key=%s\n  %s\n", f.Key, f.Detail.What)
 	if f.Detail.GrowthF != "" {
-		replayGrowth(f.Detail.GrowthF, f.Detail.GrowthN)
+		if replayGrowth(f.Detail.GrowthF, f.Detail.GrowthN) {
+			fmt.Printf("REPRODUCED property=C11 key=%s\n", f.Key)
+			os.Exit(1)
+		}
+		fmt.Printf("NOT REPRODUCED property=C11 key=%s\n", f.Key)
 		return
 	}
 	in, err := hex.DecodeString(f.Detail.InputHex)
@@ -876,5 +884,10 @@ func replay() {
 	if f.Detail.Variant == "bare" {
 		force = true
 	}
-	showOne(in, mask, force)
+	keys := showOne(in, mask, force)
+	if keys[f.Key] {
+		fmt.Printf("REPRODUCED property=C11 key=%s\n", f.Key)
+		os.Exit(1)
+	}
+	fmt.Printf("NOT REPRODUCED property=C11 key=%s (keys seen: %v)\n", f.Key, keys)
 }
